@@ -211,7 +211,9 @@ def cog_gbox(
 
 
 def yaxis_from_shape(
-    shape: Tuple[int, ...], gbox: Optional[GeoBox] = None
+    shape: Tuple[int, ...],
+    gbox: Optional[GeoBox] = None,
+    yaxis: Optional[int] = None,
 ) -> Tuple[AxisOrder, int]:
     ndim = len(shape)
 
@@ -220,6 +222,8 @@ def yaxis_from_shape(
 
     if ndim != 3:
         raise ValueError("Can only work with 2-d or 3-d data")
+    if yaxis is not None:  # caller knows, no need to guess from shape
+        return ("YXS", 0) if yaxis == 0 else ("SYX", 1)
     if gbox is None:
         if shape[-1] in (3, 4):  # YXS in RGB(A)
             return "YXS", 0
